@@ -52,7 +52,6 @@ def levenshtein_distance(s: str, t: str) -> int:
     for i in range(1, cols):
         dist[0][i] = i
 
-    col = row = 0
     for col in range(1, cols):
         for row in range(1, rows):
             if s[row - 1] == t[col - 1]:
@@ -63,7 +62,7 @@ def levenshtein_distance(s: str, t: str) -> int:
                                  dist[row][col - 1] + 1,
                                  dist[row - 1][col - 1] + cost)
 
-    return dist[row][col]
+    return dist[rows - 1][cols - 1]
 
 
 class EditDistance(SequenceEdit):
